@@ -1,6 +1,6 @@
 """Verify a seeded change delivered by a sub-agent and record it under /verif/seeded.
 
-usage: seed_verify.py <ID> <a|b>
+usage: seed_verify.py <ID> <a|b|...> [worktree root, default /tmp/wt]
   1. in the agent's scratch worktree /tmp/wt/<ID>: apply the patch, run the pinned
      test suite (must pass), run demo.py (must fail), undo, run demo.py (must pass)
   2. copy patch.diff, demo.py, meta.json (+ what was run) to /verif/seeded/<ID>-<x>/
@@ -13,7 +13,8 @@ def sh(cmd, cwd, timeout=1500):
 
 def main():
     pid, x = sys.argv[1], sys.argv[2]
-    wt = "/tmp/wt/%s" % pid
+    root = sys.argv[3] if len(sys.argv) > 3 else "/tmp/wt"
+    wt = "%s/%s" % (root, pid)
     sd = "%s/SEED/%s" % (wt, x)
     out = {"property": pid, "variant": x}
     rc, o = sh("git status --short | grep -v '^??' | wc -l", wt)
@@ -29,6 +30,11 @@ def main():
         rc, o = sh("/venv/bin/python SEED/%s/demo.py" % x, wt, 300)
         out["demo_rc_with_patch"] = rc
         out["demo_tail_with_patch"] = o[-400:]
+        # the static check, run against the patched scratch tree (SA_REPO), so that /repo itself is never touched
+        rc, o = sh("SA_REPO=%s SA_OUT=/tmp/sa_seed_out /venv/bin/python -m sa.check %s 2>&1 | grep '^FINDING\|^ANALYSIS-ERROR\|^VIOLATION' | head -8" % (wt, pid), "/verif", 900)
+        rc2, _ = sh("SA_REPO=%s SA_OUT=/tmp/sa_seed_out /venv/bin/python -m sa.check %s >/dev/null 2>&1" % (wt, pid), "/verif", 900)
+        out["check_exit_first_run"] = rc2
+        out["check_reports"] = [l[:300] for l in o.splitlines() if not l.startswith("VIOLATION")][:6]
     finally:
         sh("git checkout -- .", wt)
     rc, o = sh("/venv/bin/python SEED/%s/demo.py" % x, wt, 300)
@@ -53,6 +59,9 @@ def main():
                     "git checkout -- . ; demo.py on the clean tree -> exit %s" % out["demo_rc_clean"]],
             "demo_note": "demo.py expects to be run from the root of a menelaus checkout as SEED/<x>/demo.py (it puts the checkout root on sys.path)",
         }
+        if "check_exit_first_run" in out:
+            meta["detection"] = {"check": "sa.check %s (quick) with SA_REPO = the scratch worktree with the patch applied (the state of /verif when the change was first seen)" % pid,
+                                 "exit": out["check_exit_first_run"], "reports": out["check_reports"]}
         json.dump(meta, open(dst + "/meta.json", "w"), indent=1)
     print(json.dumps(out, indent=1))
     return 0 if ok else 1
